@@ -230,6 +230,8 @@ def run_fed_check(sc, tier, pid, enforce, level, budgets, controls, assumptions,
     worlds, ops = budgets["thorough" if thorough else "quick"]
     stats, rejections, other, samples, runs_sample, crashes = fedlib.run_strata(sc, binary, enforce, worlds, ops, cfgs_core=CFGS, pinned_prefix=pid, strata=strata)
     for stratum, last, code, stderr in crashes:
+        if code != 3 and not vlib.panic_in_code_under_test(stderr):
+            raise vlib.MachineryError("the harness itself panicked:\n" + stderr[-3000:])
         msg = [l for l in stderr.splitlines() if l.startswith("panic:") or l.startswith("fatal error:")]
         frame = ""
         lines = stderr.splitlines()
